@@ -110,6 +110,9 @@ def run_one(rng, counters):
         if opts.get("ped"):
             ro["ped"] = sim.ped
         out = os.path.join(tmp, "out.vcf")
+        if rng.random() < 0.2:
+            ro["via_cli"] = opts["via_cli"] = True  # through whatshap's argument parser, validate() and main()
+            counters["runs_via_command_line"] = counters.get("runs_via_command_line", 0) + 1
         status, trace, msg = pipeline.run_phase(sim, out, **ro)
         if status == "cle":
             counters["refused_" + msg.split(" ")[0][:20]] = counters.get("refused_" + msg.split(" ")[0][:20], 0) + 1
